@@ -76,6 +76,25 @@ theorem C14_open_failure_closes_the_others (s : Sel) (j : Nat) (hj : j < s.ctrs.
     (0, j) ∈ (eval (.log s) init).2.closed :=
   (C14_opened_iff_closed _ _).mp ((eval_log_opened s (0, j)).mpr ⟨hs, hl, j, hj, rfl, hne⟩)
 
+/-- a range aggregation opens its selection like the log query does, whether or not the
+aggregation itself can be built afterwards -/
+theorem C14_range_opened (s : Sel) (aggOk : Bool) (r : Rid) :
+    r ∈ (eval (.range s aggOk) init).2.opened ↔ r ∈ (eval (.log s) init).2.opened :=
+  eval_range_opened s aggOk r
+
+/-- operands of a binary operation are built left to right; when the left one fails (its
+selection fails, or its range operation is unsupported) the right operand is never opened: the
+readers that exist are those of the left selection (all closed, `C14_opened_iff_closed`) -/
+theorem C14_binop_left_failure_short_circuits (ok : Bool) (s1 : Sel) (a1 : Bool) (rq : Q) (r : Rid)
+    (hf : (selectLogs s1 init).1.isOk = false ∨ a1 = false) :
+    r ∈ (eval (.binop ok (.range s1 a1) rq) init).2.opened ↔ r ∈ (eval (.log s1) init).2.opened :=
+  binop_left_failure_short_circuits ok s1 a1 rq r hf
+
+-- non-vacuity: open failure on the left, the right selection (index 1) is never opened
+example : (eval (.binop true (.range ⟨true, false, [.ok, .openFail]⟩ true) (.range ⟨true, false, [.ok, .ok]⟩ true)) init).2.opened
+    = [(0, 0)] := by decide
+example : (selectLogs ⟨true, false, [.ok, .openFail]⟩ init).1.isOk = false := by decide
+
 -- non-vacuity: open failure in the middle, both neighbours opened and closed
 example : (eval (.log ⟨true, false, [.ok, .openFail, .streamFault]⟩) init).2.closed = [(0, 0), (0, 2)] := by decide
 
